@@ -729,9 +729,12 @@ pub fn main(cli: &Cli) -> i32 {
         }
         // ---- two concurrent builds over one cache, in lock-step (c30two.rs)
         if n_two > 0 {
-            let (n, viols, pr) = crate::c30two::batch(&scn, &base, derive(cli.seed, "two", si as u64), n_two, workers);
+            let (n, viols, pr, hashes) = crate::c30two::batch(&scn, &base, derive(cli.seed, "two", si as u64), n_two, workers);
             total_trials += n;
             two_runs += n;
+            for h in hashes {
+                distinct.insert(format!("{si}/two/{}", h.split(':').nth(1).unwrap_or(&h)));
+            }
             for (k, v) in pr {
                 *probes.entry(k).or_insert(0) += v;
             }
@@ -751,7 +754,7 @@ pub fn main(cli: &Cli) -> i32 {
     ev.set("evaluations", json!(total_trials));
     ev.set("two_concurrent_builds_runs", json!(two_runs));
     ev.set("distinct_nontrivial", json!(distinct.len()));
-    ev.set("rule", json!("one evaluation = one fault sequence against a fresh $HOME: faulted `forc build`(s) of a generated consumer with a file:// git dependency, then a fault-free build, then the tree/exit/lock oracles. Exhaustive part: KILL before every mutating libc call of the main thread and TORN (half the bytes, then death) at every write, per scenario. Sampled part: errno/short-write/two-crash sequences. Distinct+non-trivial = distinct (scenario, fault plan) whose fault actually fired (the shim logged it)."));
+    ev.set("rule", json!("one evaluation = one fault sequence against a fresh $HOME: faulted `forc build`(s) of a generated consumer with a file:// git dependency, then a fault-free build, then the tree/exit/lock oracles. Exhaustive part: KILL before every mutating libc call of the main thread and TORN (half the bytes, then death) at every write, per scenario. Sampled part: errno/short-write/two-crash sequences, persistent faults (E: a window of failing calls; P: one path of the checkout refused for the whole run). Two-builds part: one evaluation = one seeded lock-step interleaving of two real builds over one cache (every file-system call of either main thread is a scheduling point; one build killed in a third of the runs), then a fault-free build. Distinct+non-trivial = distinct (scenario, fault plan) whose fault actually fired (the shim logged it) + distinct two-build schedules (hash of the run-length encoded decision list)."));
     ev.set("exhaustive", json!(true));
     ev.set("exhaustive_scope", json!("per scenario: every KILL point and every TORN point at libc-call granularity of the main thread; everything else is sampled"));
     ev.set("crash_and_torn_points_enumerated", json!(crash_points_total));
